@@ -16,6 +16,20 @@ for line in open(os.path.join(ROOT, "tools", "not_applicable.txt")):
         pid, reason = line.split(" ", 1)
         NOT_YET[pid] = reason
 
+def hook_commits():
+    """`verif hook:` commits of /repo (falls back to tools/hook_commits.txt when /repo has no git history)."""
+    import subprocess
+    try:
+        out = subprocess.run(["git", "-C", "/repo", "log", "--reverse", "--format=%h %s"], stdout=subprocess.PIPE, text=True, timeout=60).stdout
+        hs = [l.split()[0] for l in out.splitlines() if l.split(" ", 1)[1].startswith("verif hook")]
+        if hs:
+            open(os.path.join(ROOT, "tools", "hook_commits.txt"), "w").write("# verif hook commits in /repo (build tag verif; add-only)\n" + "\n".join(hs) + "\n")
+            return hs
+    except Exception:
+        pass
+    return [l.strip() for l in open(os.path.join(ROOT, "tools", "hook_commits.txt")) if l.strip() and not l.startswith("#")]
+
+
 READY = set(l.strip() for l in open(os.path.join(ROOT, "tools", "ready.txt")) if l.strip() and not l.startswith("#"))
 checks = []
 for n in range(1, 21):
@@ -45,7 +59,7 @@ man = {
         "guard": "verif",
         "enable": "go build -tags verif (the harness module under /verif/harness has `replace honnef.co/go/tools => /repo`)",
         "baseline_off_cmd": "for m in . website; do (cd /repo/$m && GOFLAGS=-mod=mod GOPROXY=off go test -json -vet=off -count=1 -timeout 25m ./...); done",
-        "source_commits": [l.strip() for l in open(os.path.join(ROOT, "tools", "hook_commits.txt")) if l.strip() and not l.startswith("#")],
+        "source_commits": hook_commits(),
         "add_only": True,
     },
     "engines": [{
